@@ -110,7 +110,7 @@ class DFV:
         if name == "iloc":
             return ILocV(self)
         if name == "index":
-            return IndexV(self.nrows)
+            return getattr(self, "index_value", None) or IndexV(self.nrows)
         if name == "columns":
             return Tup(list(self.cols.keys()), "list")
         if name == "shape":
@@ -135,6 +135,10 @@ class DFV:
 
     def sym_store(self, ev, idx, v, t, mod):
         if isinstance(idx, str):
+            if hasattr(v, "index_kind"):
+                # a labelled column is aligned on the row labels: values labelled 0..n-1 by a constructor land in the rows that
+                # carry those labels (none, or other rows, unless the table happens to be labelled 0..n-1 in order)
+                v = v.value if v.index_kind == "table" else sp.Function("ALIGNED_ON_FRESH_ROW_LABELS")(as_sym(v.value))
             self.cols[idx] = as_sym(v)
             return
         raise ev.err("DataFrame store", t, mod)
